@@ -28,6 +28,7 @@ import (
 	"net/http"
 	"net/http/httptest"
 	"os"
+	"strings"
 	"sync/atomic"
 	"testing"
 	"time"
@@ -140,7 +141,39 @@ func vfLimNew(t testing.TB, providerURL string, n int) *TraefikOidc {
 
 // ---- (ii) one case on the real limiter of a fresh instance
 
+// vfLimRunRealTime drives the limiter through the CALL SITE (performPreVerificationChecks, what
+// VerifyToken runs first) in real time: 6n verifications back to back, a pause, then n more.
+// Arrival instants are read from the clock just before each call, so the limiter sees an instant
+// a little later than the recorded one: never fewer tokens than the model computes.
+func vfLimRunRealTime(t testing.TB, providerURL string, cs *vfLimCase) {
+	inst := vfLimNew(t, providerURL, cs.N)
+	cs.RateMilli, cs.Burst = vfLimMeasure(inst)
+	base := time.Now()
+	var adm []byte
+	cs.Ts = cs.Ts[:0]
+	call := func() {
+		cs.Ts = append(cs.Ts, time.Since(base).Nanoseconds())
+		if err := vfLimPreChecks(inst, "not.a.token"); err != nil && strings.Contains(err.Error(), "rate limit") {
+			adm = append(adm, '0')
+		} else {
+			adm = append(adm, '1')
+		}
+	}
+	for i := 0; i < 6*cs.N; i++ {
+		call()
+	}
+	time.Sleep(1200 * time.Millisecond)
+	for i := 0; i < cs.N; i++ {
+		call()
+	}
+	cs.Adm = string(adm)
+}
+
 func vfLimRunCase(t testing.TB, providerURL string, cs *vfLimCase) {
+	if strings.HasPrefix(cs.Kind, "rt-") {
+		vfLimRunRealTime(t, providerURL, cs)
+		return
+	}
 	inst := vfLimNew(t, providerURL, cs.N)
 	cs.RateMilli, cs.Burst = vfLimMeasure(inst)
 	lim := vfLimLimiter(inst)
@@ -281,6 +314,8 @@ func vfGenLimCase(r *vfRand, id int) *vfLimCase {
 // minimised regression patterns, run before anything generated
 func vfLimCorpus() []*vfLimCase {
 	var out []*vfLimCase
+	// through the call site, in real time: refusals must not delay later admissions
+	out = append(out, &vfLimCase{Kind: "rt-burst-then-recover", N: 10}, &vfLimCase{Kind: "rt-burst-then-recover", N: 25})
 	for _, n := range vfLimConfigured {
 		// the whole burst at once, then 15 arrivals spaced exactly 1/n s (defect F12 refuses these)
 		g := &vfLimGen{n: n, p: int64(time.Second) / int64(n)}
